@@ -1,15 +1,15 @@
 """C11: Merkle proof checks are complete and sound (check_proof, check_block_header_proof, check_account_proof)."""
 from ..gen import cells as G
 from ..translate import arith2
+from ..gen import tlbvals as V
 
 SPEC = dict(
     manifest=dict(
         category='proof',
-        text="Lean proves on a hand model of proof/check_proof.py over the cell model: (completeness, Properties/C11.lean c11_complete, "
-             "c11_account_complete) every pruning (PruneRel, any nesting of Merkle cells; uses the all-levels pruning invariance of Proofs/Prune.lean) of "
-             "every spec-valid level-0 tree of depth <= 1022, wrapped as a Merkle proof cell, can be constructed -- validity of the proof tree is derived "
-             "(Proofs/PruneWF.lean), not assumed -- and is accepted by check_proof and check_block_header_proof against the original level-0 hash, and "
-             "the account check accepts when the located account cell carries the state's hash -- no assumption on SHA-256 beyond 32-byte output; "
+        text="Lean proves on a hand model of proof/check_proof.py over the cell model: (completeness, Properties/C11.lean c11_complete) every pruning "
+             "(PruneRel, any nesting of Merkle cells; uses the all-levels pruning invariance of Proofs/Prune.lean) of every spec-valid level-0 tree of depth "
+             "<= 1022, wrapped as a Merkle proof cell, can be constructed -- validity of the proof tree is derived (Proofs/PruneWF.lean), not assumed -- and is "
+             "accepted by check_proof and check_block_header_proof against the original level-0 hash -- no assumption on SHA-256 beyond 32-byte output; "
              "(soundness) acceptance implies the cell is a well-formed Merkle proof cell (type, 280 bits, one ref, stored hash and depth) whose child has "
              "the expected level-0 hash (c11_sound_shape, c11_reject_*), and under a LOCAL no-collision hypothesis on the finite list of representations "
              "occurring in the two trees (every non-pruned cell at each of its significant levels, every pruned branch), equal level-l hashes force "
@@ -18,25 +18,43 @@ SPEC = dict(
              "they are looked at, and each pair is either a pruned branch answering with a stored hash and the subtree carrying that hash, or two cells of "
              "the same type with the same BIT STRING (padding invertibility, Proofs/Pad.lean), the same reference count and agreeing children; c11_sound: "
              "accept => Agree 0 body t for every t with that level-0 hash, c11_sound_everywhere: and along every path of reference indices down to each unpruned cell; c11_reject_changed / c11_binding_pruned_hash: a changed bit, type or reference "
-             "of an unpruned cell and a substituted pruned hash are rejected; account check: acceptance implies the supplied state's own "
-             "representation hash equals the level-0 hash of the located account cell, so a pruned branch (or a Merkle proof) that merely carries the "
-             "hash is rejected (c11_account_sound, c11_account_reject_pruned). Tie: differential correspondence library = model on generated trees, "
-             "random prunings, exhaustive single-bit flips of small proofs, sampled flips of larger ones, ref drops/swaps/substitutions, wrong hashes, "
-             "non-proof cells, wrong root counts, synthetic ShardStateUnsplit states with 1..50 accounts (all HmLabel forms incl. zero-width lengths), forged "
-             "states, accounts cells without or with a cut HashmapAugE extra; every verdict is also compared with the expectation known by construction. "
+             "of an unpruned cell and a substituted pruned hash are rejected. ACCOUNT CHECK: the TL-B walk ShardStateUnsplit.deserialize(st).accounts[0][addr].cell[0] is a "
+             "CONCRETE model function (Model/Locate.lean locateAccount: state header fields, load_hashmap_aug_e / parse_aug over the whole ShardAccounts dictionary with "
+             "the C10 label reader, DepthBalanceInfo, ShardAccount, the ^[...] group, custom), no longer a parameter. c11_locate_sound: whatever the walk returns is "
+             "the account cell that the hashmap.tlb LOOKUP of the address designates in the proved state cell (every entry of a successful parse_aug is what the "
+             "lookup of its key finds; keys of a parse are pairwise distinct); c11_account_sound(_lookup): acceptance implies two roots, both pass check_proof, the header "
+             "commits to the state hash, the dictionary of the proved state cell maps the address to a ShardAccount whose account cell has as level-0 hash the "
+             "REPRESENTATION hash of the supplied state (so a pruned branch or Merkle proof that merely carries the hash is rejected, c11_account_reject_pruned; an "
+             "address the lookup does not find is rejected, c11_account_reject_absent); c11_account_sound_state + c11_header_binds_state (END TO END, same local "
+             "no-collision hypothesis): for EVERY genuine block tree with the given root hash its state_update cell stores the state hash sh the check goes on "
+             "with, and for EVERY genuine state tree T with level-0 hash sh, T's own ShardAccounts dictionary maps the address to a ShardAccount whose account "
+             "cell has level-0 hash = hash of the supplied state (the walk commutes with object<->tree and with Agree on ordinary cells, "
+             "Proofs/LocateBind.lean). Completeness of the account check: c11_locate_complete (the walk returns the account cell on every ordinary "
+             "shard_state cell whose ShardAccounts root is a spec-valid HashmapAug 256 with ANY label constructors and ANY edges off the path replaced by pruned "
+             "branches, extras/leaves of the unpruned part readable, ^[...] group and custom pruned or readable) and c11_account_complete_honest (any prunings of "
+             "block and state that keep the header commitment and the walk: both proof cells can be built and check_account_proof returns, whether the "
+             "account cell is in the proof in full or pruned -- pruning invariance along the walk). Tie: differential correspondence library = model on generated "
+             "trees, random prunings, exhaustive single-bit flips of small proofs, sampled flips of larger ones, ref drops/swaps/substitutions, wrong hashes, "
+             "non-proof cells, truncated proof roots, exotic twins, wrong root counts, synthetic ShardStateUnsplit states with 1..50 accounts (all HmLabel forms incl. "
+             "zero-width lengths), forged states, accounts cells without or with a cut HashmapAugE extra, and a stream that drives every branch of the TL-B walk "
+             "(defective leaves / extras / extra-currency dictionaries / ref group / custom / tags, each once pruned away = must accept and once left in = must "
+             "reject); every verdict is also compared with the expectation known by construction, and the cell the library's walk returns with an "
+             "independent Python transcription of the hashmap.tlb lookup. "
              "In addition every `if ...: raise ProofError` test of check_proof, check_block_header_proof, check_account_proof (and the simple ones of "
              "check_shard_proof) and the CellTypes constants are re-translated from the source on every run (Generated/ProofChecks.lean; bytes "
              "slices, concatenation and to_bytes included) and proved, for ALL values, to be the model's tests (c11_src_proof_tests, "
              "c11_src_header_tests, c11_src_account_tests, c11_src_cell_types); the hand model's check_proof / check_block_header_proof / "
              "check_account_proof are proved to be exactly the composition of these source tests in the order of the code (c11_src_check_proof, "
              "c11_src_header, c11_src_account; first decisions of check_shard_proof: c11_src_shard).",
-        level_note='Trusted: Lean kernel; Spec/Cell.lean; Model/Cell.lean and Model/Proof.lean as hand transcriptions (sampled correspondence; the '
+        level_note='Trusted: Lean kernel; Spec/Cell.lean; Model/Cell.lean, Model/Proof.lean, Model/Locate.lean as hand transcriptions (sampled correspondence; the '
                    'raise-tests of check_proof.py themselves are regenerated from the source and proved for all values, trusting the translator '
-                   'harness/translate/pyarith.py and its reading of bytes operations in lean/TonVerif/PyBytes.lean; what the operands '
+                   'harness/translate/pyarith.py and its reading of bytes operations in lean/TonVerif/PyBytes.lean + PyBytes2.lean; what the operands '
                    'cell[0].get_hash(0), cell.data, ... evaluate to remains with the hand model); '
-                   'BoC decoding and the TL-B walk to the account cell are abstracted (parameter `locate`; the driver uses a lookup-only instance '
-                   'that is compared with the library on generated states); SHA-256 is a parameter, soundness assumes no collision among the '
-                   'representations at hand.',
+                   'BoC decoding (roots = result of Cell.from_boc) is abstracted; of the TL-B walk to the account cell TWO sub-parsers remain Boolean parameters '
+                   '(structure Opaque: Account.deserialize on an account$1 cell, McStateExtra.deserialize on an ordinary cell) -- every account theorem is quantified '
+                   'over all their values, completeness needs them to return where such a cell is left unpruned; in the correspondence their verdicts are taken from '
+                   'the library per case; check_shard_proof is modelled with Boolean parameters and has no correspondence; SHA-256 is a parameter, soundness '
+                   'assumes no collision among the representations at hand.',
         technique='Lean 4 proof (hand model) + differential correspondence with the library + source-regenerated decision lines',
     ),
     translators=[('check_proof.py raise-tests, exotic.py CellTypes->Generated/ProofChecks.lean', arith2.regenerator('ProofChecks'))],
@@ -44,13 +62,19 @@ SPEC = dict(
     rule='trees (ordinary DAGs, exotic trees with library cells and inner Merkle proofs/updates, block-like shapes), random pruning sets at Merkle '
          'depth 1, proof = MPROOF cell over the pruned tree; positive stream must be accepted by check_proof/check_block_header_proof; negative '
          'stream = every single-bit flip of every cell of small proofs, sampled bit/byte flips of larger ones, ref drop/duplicate/swap/substitute, '
-         'wrong expected hashes, non-proof wrappers; account stream = synthetic ShardStateUnsplit with 1..50 accounts, state and header pruned off '
-         'the account path, forged account states (pruned branch / Merkle proof carrying the hash), wrong roots, accounts cell without / with a cut HashmapAugE extra (parser must raise). distinct = distinct (dag, op, '
+         'wrong expected hashes, non-proof wrappers, truncated roots, exotic twins; account stream = synthetic ShardStateUnsplit with 1..50 accounts, state and header pruned off '
+         'the account path, forged account states (pruned branch / Merkle proof carrying the hash), wrong roots, accounts cell without / with a cut HashmapAugE extra (parser must raise); '
+         'walk stream = states with one defect per parser branch (leaf value short / no account ref / empty account cell, fork extra cut, extra-currency value cut, '
+         'ref group short / Grams cut / master_ref short / dict bit without ref, custom junk / missing / no bit, wrong tags), each pruned away (accept) and left in (reject), '
+         'spec-encoded Account / McStateExtra cells from the C16 codecs. distinct = distinct (dag, op, '
          'hash); non-trivial = proof with at least one pruned branch or a negative case',
-    trusted_base=['Model/Proof.lean mirrors check_proof / check_block_header_proof / check_account_proof by hand (after fix commits 56bdc07, 3b51ac3, 83e0e94, 67bd38d; locateAccount after f2933e1, 602ccc8)',
-                  'BoC decoding (Cell.from_boc) and ShardStateUnsplit TL-B parsing are abstracted: roots list and `locate` parameter',
-                  'Spec/Cell.lean transcribes the TON level-mask / per-level hash rules', 'SHA-256 abstract in theorems',
-                  'harness/translate/pyarith.py + arith.py/arith2.py and lean/TonVerif/PyBytes.lean (Python comparisons / bytes slices -> Lean) for the c11_src_* theorems'],
+    trusted_base=['Model/Proof.lean mirrors check_proof / check_block_header_proof / check_account_proof by hand (after fix commits 56bdc07, 3b51ac3, 83e0e94, 67bd38d)',
+                  'Model/Locate.lean mirrors ShardStateUnsplit.deserialize / load_hashmap_aug_e / parse_aug / DepthBalanceInfo / ShardAccount by hand (after f2933e1, 602ccc8); '
+                  'Account.deserialize (account$1) and McStateExtra.deserialize (ordinary cell) are Boolean parameters whose verdicts the harness takes from the library',
+                  'BoC decoding (Cell.from_boc) is abstracted: roots list',
+                  'Spec/Cell.lean transcribes the TON level-mask / per-level hash rules; Model/Locate.lean lookupShardAccount transcribes the hashmap.tlb lookup and the block.tlb layout of ShardStateUnsplit / ShardAccounts / DepthBalanceInfo / ShardAccount',
+                  'SHA-256 abstract in theorems',
+                  'harness/translate/pyarith.py + arith.py/arith2.py and lean/TonVerif/PyBytes.lean + PyBytes2.lean (Python comparisons / bytes slices -> Lean) for the c11_src_* theorems'],
     assumptions=['hashlib.sha256 is SHA-256', 'soundness theorems assume no SHA-256 collision among the cell representations of the two trees compared',
                  'correspondence is sampled'],
 )
@@ -338,11 +362,25 @@ def not_a_proof(ctx, rng, pn, pinfos, R, proot, h):
         ('proof cell 281 bits', (G.MPROOF, bits + '1', refs)),
         ('unknown kind 5', (5, bits, refs)),
     ]
+    # shorter proof cells whose completion-tag padding reproduces the cut bits: the serialised data bytes (and d2's byte count)
+    # are those of the genuine 280-bit cell, only the bit length differs
+    for k in range(1, 8):
+        if bits[280 - k:] == '1' + '0' * (k - 1):
+            variants.append((f'proof cell {280 - k} bits, same padded data', (G.MPROOF, bits[:280 - k], refs)))
+        else:
+            variants.append((f'proof cell {280 - k} bits', (G.MPROOF, bits[:280 - k], refs)))
     for name, node in variants:
         mut = list(pn)
         mut[R] = node
         key = 'sound:rootcell' if node[0] == G.MPROOF else 'sound:notproof'
         run_proof_case(ctx, mut, R, h, 'rej', key, f'{name} accepted as Merkle proof', mut={'variant': name})
+    # an ORDINARY cell with the proof cell's exact bits and reference exists in the process before / after the genuine proof
+    # cell is built: the ordinary one is never a proof, the genuine one always is
+    if R == len(pn) - 1:
+        twin = (G.ORD, bits, refs)
+        run_proof_case(ctx, pn[:R] + [twin, pn[R]], R + 1, h, 'acc', 'complete:after-twin', 'genuine proof rejected after an ordinary cell with the same bits/refs was built')
+        run_proof_case(ctx, pn[:R] + [twin, pn[R]], R, h, 'rej', 'sound:notproof', 'ordinary twin of the proof cell accepted as Merkle proof', mut={'variant': 'twin-first'})
+        run_proof_case(ctx, pn + [twin], R + 1, h, 'rej', 'sound:notproof', 'ordinary twin built after the proof cell accepted as Merkle proof', mut={'variant': 'twin-after'})
     # the pruned tree's root itself handed in as the proof
     run_proof_case(ctx, pn, proot, h, 'rej', 'sound:notproof', 'the proof body (not wrapped) accepted as Merkle proof', mut={'variant': 'body'})
 
@@ -376,7 +414,105 @@ def forged_state_hash(ctx, rng, pn, pinfos, R, proot, h):
     ctx.expect_model(f'chkproof {dag_str(mut)} {R} {hx(h)}', lib_verdict_proof(libs[R], h), 'gray:forged-statehash')
 
 
+def kind_flips(ctx, rng, pn, pinfos, R, proot, h, budget):
+    """change only the CELL TYPE of an unpruned cell of an accepted proof (bits and references untouched): d1 changes, so the
+    hash chain breaks and the proof must be rejected - also right after the honest proof was verified in this process"""
+    cand = [j for j in range(R) if pinfos[j] is not None and pinfos[j].valid and pn[j][0] != G.PRUNED]
+    rng.shuffle(cand)
+    done = 0
+    for j in cand:
+        kind, bits, refs = pn[j]
+        for nk in (G.ORD, G.LIB, G.PRUNED, G.MPROOF, G.MUPDATE):
+            if nk == kind or done >= budget:
+                continue
+            # an exotic cell's type IS its first data byte (that is how a bag of cells carries it): only switches that keep
+            # the two consistent describe a TON cell - exotic -> ordinary always, ordinary -> X when the data starts with X's tag
+            if nk != G.ORD and (kind != G.ORD or len(bits) < 8 or int(bits[:8], 2) != nk):
+                continue
+            mut = list(pn)
+            mut[j] = (nk, bits, refs)
+            run_proof_case(ctx, mut, R, h, 'rej', 'sound:kind', f'cell type of unpruned node {j} changed {kind}->{nk} (same bits/refs) and the proof is accepted',
+                           mut={'node': j, 'kind': nk}, hdr_idx=proot, hdr_expect='rej')
+            done += 1
+
+
+def shaped_trees(ctx, rng):
+    """honest trees holding ORDINARY cells whose bits have the shape of an exotic cell (library: 02||32 bytes; pruned branch:
+    01 01||hash||depth; Merkle proof of their own child) and, conversely, exotic cells: verify the honest proof, then the
+    forgery in which just that cell's type is switched (constructible, so only the hash chain can catch it)."""
+    for t in range(ctx.n(12, 120)):
+        db = G.DagBuilder()
+        a = db.add(G.ORD, G.rand_bits(rng, rng.choice([0, 7, 32])))
+        libbits = G.bytes_to_bits(bytes([2]) + rng.randbytes(32))
+        prbits = G.make_pruned_of(db.infos[a], 1)[1]
+        mpbits = G.mproof_bits(db.infos[a])
+        shape = t % 4
+        if shape == 0:
+            c, flip = db.add(G.ORD, libbits), G.LIB
+        elif shape == 1:
+            c, flip = db.add(G.LIB, libbits), G.ORD
+        elif shape == 2:
+            c, flip = db.add(G.ORD, prbits), G.PRUNED
+        else:
+            c, flip = db.add(G.ORD, mpbits, (a,)), G.MPROOF
+        inner = db.add(G.ORD, G.rand_bits(rng, 3), (c,))
+        root = db.add(G.ORD, G.rand_bits(rng, 16), (a, inner))
+        if not db.ok(root) or db.infos[root].mask != 0:
+            continue
+        h = db.infos[root].H[0]
+        R = db.add(G.MPROOF, G.mproof_bits(db.infos[root]), (root,))
+        pn = db.nodes[:R + 1]
+        run_proof_case(ctx, pn, R, h, 'acc', 'complete:shaped', 'unpruned proof of a tree holding an exotic-shaped cell rejected')
+        mut = list(pn)
+        mut[c] = (flip, pn[c][1], pn[c][2])
+        run_proof_case(ctx, mut, R, h, 'rej', 'sound:kind', f'cell type of node {c} switched to {flip} (same bits/refs) after the honest proof was verified: accepted',
+                       mut={'node': c, 'kind': flip})
+        run_proof_case(ctx, pn, R, h, 'acc', 'complete:shaped', 'honest proof rejected after the forged one was seen')
+
+
+def truncated_root(ctx, pn, R, proot, h):
+    """the proof root cut to 280-k bits (1 <= k <= 7) where the cut-off tail is 1 0^(k-1): its padded `data` (completion tag!) is byte for
+    byte the data of the genuine 280-bit cell, only the bit length tells them apart"""
+    kind, bits, refs = pn[R]
+    for k in range(1, 8):
+        if len(bits) == 280 and bits[280 - k:] == '1' + '0' * (k - 1):
+            mut = list(pn)
+            mut[R] = (kind, bits[:280 - k], refs)
+            ctx.count('rootcell:truncated-to-tag')
+            run_proof_case(ctx, mut, R, h, 'rej', 'sound:rootcell', f'proof cell of {280 - k} bits whose padded data equals the genuine cell\'s accepted',
+                           mut={'variant': f'truncated {k}'})
+
+
+def kind_twins(ctx, rng):
+    """an unpruned ORDINARY cell whose data looks like an exotic cell's, and the same bits/refs flagged exotic: the two differ only in the
+    descriptor byte d1, so every hash above differs. The honest proof is checked first (same process), then the twin."""
+    db = G.DagBuilder()
+    other = db.add(G.ORD, G.rand_bits(rng, rng.randrange(1, 60)))
+    sub = db.add(G.ORD, G.rand_bits(rng, 17))
+    which = rng.choice(['lib', 'pruned'])
+    if which == 'lib':
+        tbits, tkind = G.bytes_to_bits(bytes([2]) + rng.randbytes(32)), G.LIB
+    else:
+        tbits, tkind = G.pruned_bits(1, [db.infos[sub].H[0]], [db.infos[sub].D[0]]), G.PRUNED
+    x = db.add(G.ORD, tbits)
+    mid = db.add(G.ORD, G.rand_bits(rng, 9), [x, other])
+    root = db.add(G.ORD, G.rand_bits(rng, 33), [mid, other])
+    if not db.ok(root):
+        return
+    h = db.infos[root].H[0]
+    pn = list(db.nodes[:root + 1]) + [(G.MPROOF, G.mproof_bits(db.infos[root]), (root,))]
+    R = len(pn) - 1
+    run_proof_case(ctx, pn, R, h, 'acc', 'complete:check_proof', 'unpruned proof over a tree with an exotic-looking ordinary cell rejected', hdr_idx=root,
+                   hdr_expect='acc', nontrivial=False)
+    mut = list(pn)
+    mut[x] = (tkind, tbits, ())
+    ctx.count('kind-twin:' + which)
+    run_proof_case(ctx, mut, R, h, 'rej', 'sound:kind', f'unpruned ordinary cell replaced by the {which} cell with the same bits accepted', mut={'node': x, 'kind': tkind},
+                   hdr_idx=root, hdr_expect='rej')
+
+
 def generic_streams(ctx, rng):
+    shaped_trees(ctx, rng)
     n_trees = ctx.n(140, 1400)
     exhaustive_left = ctx.n(10, 60)
     for t in range(n_trees):
@@ -410,6 +546,10 @@ def generic_streams(ctx, rng):
             mutate_bits(ctx, rng, pn, R, proot, h, False, ctx.n(14, 40))
         mutate_refs(ctx, rng, pn, pinfos, R, proot, h, ctx.n(4, 12))
         forged_state_hash(ctx, rng, pn, pinfos, R, proot, h)
+        kind_flips(ctx, rng, pn, pinfos, R, proot, h, ctx.n(3, 8))
+        truncated_root(ctx, pn, R, proot, h)
+        if t % 7 == 0:
+            kind_twins(ctx, rng)
         if t % 3 == 0:
             wrong_hashes(ctx, rng, pn, pinfos, R, proot, h)
         if t % 5 == 0:
@@ -521,7 +661,10 @@ def gen_state(rng, db, naccounts, extra_mode='full'):
         eb, er = eb[:-1], []
     elif extra_mode == 'no-ref':       # the Maybe bit announces a dictionary reference that is not there
         eb, er = eb[:-1] + '1', []
-    acell = db.add(G.ORD, '1' + eb, [droot] + er)
+    if extra_mode == 'empty':          # ahme_empty$0 extra:Y : the parser returns ({}, [extra]); the lookup of any address is a KeyError
+        acell = db.add(G.ORD, '0' + eb, er)
+    else:
+        acell = db.add(G.ORD, '1' + eb, [droot] + er)
     for k in keys:
         path[k].append(acell)
     omq = G.gen_exotic_tree(rng, db, 0, rng.randrange(1, 5))
@@ -573,6 +716,40 @@ def multi_root_boc(roots):
     return out
 
 
+_OPAQUE_CACHE = {}
+
+
+def opaque_verdicts(libs, nodes):
+    """The two sub-parsers the Lean model keeps abstract (Model/Locate.lean `Opaque`), as observed on the library: representation hashes of the
+    cells on which `Account.deserialize` (cells whose first bit is 1) resp. `McStateExtra.deserialize` (ordinary cells in the `custom` position
+    of a state-like cell) raise. Cached by cell hash."""
+    from pytoniq_core.tlb.account import Account
+    from pytoniq_core.tlb.block import McStateExtra
+    bad_acc, bad_mc = set(), set()
+
+    def verdict(kind, cell, fn):
+        k = (kind, cell.hash)
+        if k not in _OPAQUE_CACHE:
+            try:
+                fn(cell.begin_parse())
+                _OPAQUE_CACHE[k] = True
+            except Exception:
+                _OPAQUE_CACHE[k] = False
+        return _OPAQUE_CACHE[k]
+
+    for i, (kind, bits, refs) in enumerate(nodes):
+        c = libs[i]
+        if c is None:
+            continue
+        if bits[:1] == '1' and not verdict('a', c, Account.deserialize):
+            bad_acc.add(c.hash.hex())
+        if kind == G.ORD and len(bits) >= 362 and bits[361] == '1' and len(refs) >= 4:
+            cu = libs[refs[3]]
+            if cu is not None and cu.type_ == -1 and not verdict('m', cu, McStateExtra.deserialize):
+                bad_mc.add(cu.hash.hex())
+    return '.'.join(sorted(bad_acc)) or '-', '.'.join(sorted(bad_mc)) or '-'
+
+
 def run_account_case(ctx, nodes, roots, blk_hash, key, state_idx, expect, fkey, what, check_descr=None):
     from pytoniq_core.proof.check_proof import check_account_proof
     from pytoniq_core.tl.block import BlockIdExt
@@ -613,7 +790,10 @@ def run_account_case(ctx, nodes, roots, blk_hash, key, state_idx, expect, fkey, 
         ctx.fail(fkey + '/descr', f'check_account_proof(..., return_account_descr=True): {what}', dict(inp, return_account_descr=True), got_descr, expect)
     elif got_descr != got:
         ctx.corr_broken(f'check_account_proof verdict depends on return_account_descr ({got} vs {got_descr}) on {fkey}')
-    ctx.expect_model(f'chkacct {dag_str(nodes)} {".".join(map(str, roots))} {hx(blk_hash)} {kb.hex()} {state_idx}', got, fkey)
+    bad_acc, bad_mc = opaque_verdicts(libs, nodes)
+    if bad_acc != '-' or bad_mc != '-':
+        ctx.count('opaque:library-verdict-used')
+    ctx.expect_model(f'chkacct {dag_str(nodes)} {".".join(map(str, roots))} {hx(blk_hash)} {kb.hex()} {state_idx} {bad_acc} {bad_mc}', got, fkey)
     return got
 
 
@@ -691,6 +871,20 @@ def account_stream(ctx, rng):
         absent = key ^ (1 << rng.randrange(256))
         if absent not in accs:
             run_account_case(ctx, dag, roots, blk_hash, absent, sidx, 'rej', 'account:absent', 'address not in the dictionary accepted')
+        # the account's branch of the dictionary is PRUNED away (the proof shows nothing about it) and an empty state is claimed:
+        # "not found in what the proof reveals" is no proof of absence
+        others = [k for k in accs if k != key]
+        keep_other = (set(path[rng.choice(others)]) | {sroot}) if others else {sroot}       # another account's branch stays revealed
+        dpr, rpr, _, _ = build(state_keep=keep_other, prune_p=1.0)
+        dpr = list(dpr) + [(G.ORD, '', ())]
+        run_account_case(ctx, dpr, rpr, blk_hash, key, len(dpr) - 1, 'rej', 'account:pruned-path-empty-state',
+                         'empty cell accepted as the state of an account whose dictionary branch is pruned in the proof')
+        run_account_case(ctx, dpr, rpr, blk_hash, key, sidx if sidx < len(dpr) - 1 else 0, 'rej', 'account:pruned-path',
+                         'account proof whose dictionary branch to the account is pruned accepted')
+        if absent not in accs:
+            de = list(dag) + [(G.ORD, '', ())]
+            run_account_case(ctx, de, roots, blk_hash, absent, len(de) - 1, None, 'account:absent-empty-state',
+                             'empty cell claimed for an address that is not in the (revealed part of the) dictionary')
         # root count / order / non-proof roots
         run_account_case(ctx, dag, roots[:1], blk_hash, key, sidx, 'rej', 'sound:roots', 'one root accepted')
         run_account_case(ctx, dag, roots + roots[:1], blk_hash, key, sidx, 'rej', 'sound:roots', 'three roots accepted')
@@ -765,7 +959,8 @@ def extra_stream(ctx, rng):
     root, so these states cannot be parsed and the account check must raise (Model/Proof.lean `readsDepthBalance` = false). Unpruned proofs over an
     otherwise valid state; 'none' carries the by-construction expectation, the cut variants are gray (model = library only), 'full' is the control."""
     modes = (('none', 'rej', 'account:no-extra'), ('short', None, 'gray:extra-short'), ('grams-cut', None, 'gray:extra-grams-cut'),
-             ('no-maybe', None, 'gray:extra-no-maybe'), ('no-ref', None, 'gray:extra-no-ref'), ('full', 'acc', 'complete:account'))
+             ('no-maybe', None, 'gray:extra-no-maybe'), ('no-ref', None, 'gray:extra-no-ref'), ('empty', 'rej', 'account:empty-dict'),
+             ('full', 'acc', 'complete:account'))
     for _ in range(ctx.n(2, 12)):
         for mode, expect, fkey in modes:
             db = G.DagBuilder()
@@ -790,6 +985,393 @@ def extra_stream(ctx, rng):
             ctx.count(f'extra-mode:{mode}')
             run_account_case(ctx, dag, [r0, r1], blk_hash, key, o + accs[key], expect, fkey,
                              f'account proof over a state whose accounts cell has extra mode {mode!r}: wrong verdict')
+
+
+# ----------------------------------------------------------------------------- stream E: the TL-B walk to the account cell (Model/Locate.lean)
+
+def py_label(bits, n):
+    """HmLabel ~l n at the front of `bits`: (label, rest) or None — independent transcription of hashmap.tlb"""
+    if bits[:1] == '0':
+        i = 1
+        while i < len(bits) and bits[i] == '1':
+            i += 1
+        l = i - 1
+        if i >= len(bits) or len(bits) < i + 1 + l:
+            return None
+        return bits[i + 1:i + 1 + l], bits[i + 1 + l:]
+    w = n.bit_length()
+    if bits[:2] == '10':
+        if len(bits) < 2 + w:
+            return None
+        l = int(bits[2:2 + w], 2) if w else 0
+        if len(bits) < 2 + w + l:
+            return None
+        return bits[2 + w:2 + w + l], bits[2 + w + l:]
+    if bits[:2] == '11':
+        if len(bits) < 3 + w:
+            return None
+        l = int(bits[3:3 + w], 2) if w else 0
+        return bits[2] * l, bits[3 + w:]
+    return None
+
+
+def py_lookup(st, key):
+    """block.tlb / hashmap.tlb, LOOKUP ONLY: the `account:^Account` cell of the 256-bit string `key` in the shard state cell `st`
+    (library Cell objects are used as plain (type, bits, refs) records); None = absent / not a state / path pruned."""
+    def rec(c):
+        return c.type_, c.bits.to01(), c.refs
+    k, b, r = rec(st)
+    if k != -1 or len(b) < 361 or b[:32] != ubits(0x9023afe2, 32) or len(r) < 2:
+        return None
+    k, b, r = rec(r[1])
+    if k != -1 or b[:1] != '1' or not r:
+        return None
+    c, n = r[0], 256
+    while True:
+        k, b, r = rec(c)
+        if k != -1:
+            return None
+        lr = py_label(b, n)
+        if lr is None:
+            return None
+        lbl, rest = lr
+        if len(lbl) > n or key[:len(lbl)] != lbl:
+            return None
+        key = key[len(lbl):]
+        n -= len(lbl)
+        if n == 0:
+            break
+        if len(r) < 2:
+            return None
+        c = r[int(key[0])]
+        key = key[1:]
+        n -= 1
+    # leaf: extra:DepthBalanceInfo value:ShardAccount
+    if len(rest) < 9:
+        return None
+    gl = int(rest[5:9], 2)
+    if len(rest) < 9 + 8 * gl + 1:
+        return None
+    nref = int(rest[9 + 8 * gl])
+    if len(rest) - (10 + 8 * gl) < 320 or len(r) <= nref:
+        return None
+    return r[nref]
+
+
+def lib_walk(st, kb):
+    from pytoniq_core.tlb.block import ShardStateUnsplit
+    try:
+        shard = ShardStateUnsplit.deserialize(st.begin_parse())
+        return shard.accounts[0][int.from_bytes(kb, 'big')].cell[0].hash.hex()
+    except Exception:
+        return 'x'
+
+
+def prune_exact(nodes, infos, root, prune_set, level=1):
+    """prune exactly the nodes of `prune_set` (where first met from the root), keep everything else -> (db, new root)"""
+    db = G.DagBuilder()
+    memo = {}
+
+    def go(i, pd, is_root):
+        if (i, pd) in memo:
+            return memo[(i, pd)]
+        kind, bits, refs = nodes[i]
+        inf = infos[i]
+        if (not is_root) and i in prune_set and inf is not None and inf.valid and kind != G.PRUNED and 1 <= pd <= 3:
+            j = db.add(*G.make_pruned_of(inf, pd))
+        else:
+            cpd = pd + 1 if kind in (G.MPROOF, G.MUPDATE) else pd
+            j = db.add(kind, bits, [go(c, cpd, False) for c in refs])
+        memo[(i, pd)] = j
+        return j
+
+    return db, go(root, level, True)
+
+
+def add_nodes(db, nodes):
+    off = len(db.nodes)
+    for k, b, r in nodes:
+        db.add(k, b, [x + off for x in r])
+    return len(db.nodes) - 1
+
+
+def spec_pool(ctx, rng, ty, n):
+    """DAGs (root last) of spec-encoded values of a block.tlb type, from the Lean spec codecs of C16 (driver op tlbgen)"""
+    out = []
+    for a in ctx.model.run([f'tlbgen {ty} {rng.randrange(1 << 30)}' for _ in range(n)]):
+        if a.startswith('ok '):
+            g = V.parse_gen_answer(a)
+            if g is not None and len(g['nodes']) <= 60:
+                out.append(g['nodes'])
+    return out
+
+
+def cc_bits(rng):
+    l = rng.choice([0, 0, 1, 3])
+    return ubits(l, 4) + G.rand_bits(rng, 8 * l) + '0'
+
+
+def gen_walk_state(rng, pools, force=None):
+    """A shard state that drives every branch of the TL-B walk. -> dict with
+    db, root, key, acc (the target's account cell), path (nodes that must stay: root, accounts cell, dictionary path),
+    bad {node: why} (the parser raises while the node is present unpruned), gray (nodes whose verdict is the library's: spec-encoded /
+    junk accounts, spec McStateExtra), fatal (why the walk must fail whatever is pruned) or None."""
+    db = G.DagBuilder()
+    st = dict(db=db, bad={}, gray=set(), fatal=None)
+    nacc = rng.choice([1, 2, 3, 5, 8])
+    keys = gen_keys(rng, nacc)
+    target = rng.choice(keys)
+    accs = {}
+    for k in keys:
+        kind = rng.choice(['none', 'none', 'spec', 'junk1', 'empty', 'lib'])
+        if kind == 'spec' and pools['Account']:
+            a = add_nodes(db, rng.choice(pools['Account']))
+            st['gray'].add(a)
+        elif kind == 'junk1':
+            a = db.add(G.ORD, '1' + G.rand_bits(rng, rng.choice([0, 5, 300, 700])))
+            st['gray'].add(a)
+        elif kind == 'empty':
+            a = db.add(G.ORD, '')
+            st['bad'][a] = 'empty account cell (load_bit raises)'
+        elif kind == 'lib':
+            a = db.add(G.LIB, G.bytes_to_bits(bytes([2]) + rng.randbytes(32)))
+        else:
+            a = gen_account_cell(rng, db)
+        accs[k] = a
+    path = {k: [] for k in keys}
+
+    def extra(allow_bad=True):
+        nb = rng.choice([0, 0, 1, 2, 8, 15])
+        bits = ubits(rng.randrange(31), 5) + ubits(nb, 4) + ubits(rng.getrandbits(8 * nb) if nb else 0, 8 * nb)
+        r = rng.random()
+        if r < 0.25:
+            val = ubits(1, 5) + ubits(rng.randrange(1, 256), 8)
+            cut = allow_bad and rng.random() < 0.3
+            if cut:
+                val = ubits(1, 5) + G.rand_bits(rng, rng.randrange(0, 8))
+            d = db.add(G.ORD, enc_label(rng, ubits(rng.getrandbits(32), 32), 32) + val)
+            if cut:
+                st['bad'][d] = 'extra-currency value cut (load_var_uint raises)'
+            return bits + '1', [d]
+        return bits + '0', []
+
+    def build(items, n):
+        ks = [k for k, _, _ in items]
+        lbl = ks[0]
+        for k in ks[1:]:
+            i = 0
+            while i < len(lbl) and lbl[i] == k[i]:
+                i += 1
+            lbl = lbl[:i]
+        bits = enc_label(rng, lbl, n)
+        m = n - len(lbl)
+        eb, er = extra()
+        if m == 0:
+            _, acc, full = items[0]
+            dfx = rng.choice(['value-319', 'value-256', 'no-account-ref']) if rng.random() < 0.15 else None
+            vbits = {'value-319': 319, 'value-256': 256}.get(dfx, 320)
+            refs = er + ([] if dfx == 'no-account-ref' else [acc])
+            node = db.add(G.ORD, bits + eb + G.rand_bits(rng, vbits), refs)
+            if dfx:
+                st['bad'][node] = 'leaf ' + dfx
+            path[full].append(node)
+            return node
+        left = [(k[len(lbl) + 1:], a, f) for k, a, f in items if k[len(lbl)] == '0']
+        right = [(k[len(lbl) + 1:], a, f) for k, a, f in items if k[len(lbl)] == '1']
+        l = build(left, m - 1)
+        r = build(right, m - 1)
+        cut = rng.random() < 0.06
+        if cut:
+            eb, er = eb[:rng.randrange(0, len(eb))], []
+        node = db.add(G.ORD, bits + eb, [l, r] + er)
+        if cut:
+            st['bad'][node] = 'fork extra cut'
+        for _, _, f in items:
+            path[f].append(node)
+        return node
+
+    droot = build([(ubits(k, 256), accs[k], k) for k in keys], 256)
+    eb, er = extra(allow_bad=False)
+    acell = db.add(G.ORD, '1' + eb, [droot] + er)
+    omq = G.gen_exotic_tree(rng, db, 0, rng.randrange(1, 4))
+    # the `^[ overload_history … master_ref ]` group
+    gk = rng.choice(['plain', 'plain', 'libs', 'master', 'master-short', 'short', 'cc-cut', 'libs-noref'])
+    h2 = G.rand_bits(rng, 128)
+    if gk == 'plain':
+        grp = db.add(G.ORD, h2 + cc_bits(rng) + cc_bits(rng) + '00')
+    elif gk == 'libs':
+        lib = db.add(G.ORD, enc_label(rng, ubits(rng.getrandbits(256), 256), 256) + G.rand_bits(rng, 20))
+        grp = db.add(G.ORD, h2 + cc_bits(rng) + cc_bits(rng) + '10', [lib])
+    elif gk == 'master':
+        grp = db.add(G.ORD, h2 + cc_bits(rng) + cc_bits(rng) + '01' + G.rand_bits(rng, 608))
+    elif gk == 'master-short':
+        grp = db.add(G.ORD, h2 + cc_bits(rng) + cc_bits(rng) + '01' + G.rand_bits(rng, rng.choice([0, 600, 607])))
+    elif gk == 'short':
+        grp = db.add(G.ORD, G.rand_bits(rng, rng.choice([0, 100, 127])))
+    elif gk == 'cc-cut':
+        grp = db.add(G.ORD, h2 + ubits(5, 4) + G.rand_bits(rng, 16))
+    else:
+        grp = db.add(G.ORD, h2 + cc_bits(rng) + cc_bits(rng) + '10')
+    if gk in ('master-short', 'short', 'cc-cut', 'libs-noref'):
+        st['bad'][grp] = 'state ref group ' + gk
+    # custom
+    ck = rng.choice(['none', 'none', 'none', 'none', 'spec', 'spec', 'junk', 'junk', 'lib', 'lib', 'noref', 'nobit'])
+    if force is not None:
+        ck = force if force in ('noref', 'nobit') else rng.choice(['none', 'junk', 'lib'])
+    refs = [omq, acell, grp]
+    cbit = '0'
+    if ck == 'spec' and pools['McStateExtra']:
+        cu = add_nodes(db, rng.choice(pools['McStateExtra']))
+        st['gray'].add(cu)
+        refs.append(cu)
+        cbit = '1'
+    elif ck == 'junk':
+        cu = db.add(G.ORD, G.rand_bits(rng, rng.choice([0, 16, 200])))
+        st['bad'][cu] = 'custom is not a McStateExtra'
+        refs.append(cu)
+        cbit = '1'
+    elif ck == 'lib':
+        refs.append(db.add(G.LIB, G.bytes_to_bits(bytes([2]) + rng.randbytes(32))))
+        cbit = '1'
+    elif ck == 'noref':
+        cbit = '1'
+        st['fatal'] = 'custom bit set, no reference'
+    elif ck == 'nobit':
+        cbit = ''
+        st['fatal'] = 'state cell ends before the custom bit'
+    tag = ubits(0x9023afe2, 32)
+    sid = '00'
+    rk = {'tag': 0.0, 'shardident': 0.05}.get(force, rng.random() if force is None else 1.0)
+    if rk < 0.04:
+        i = rng.randrange(32)
+        tag = tag[:i] + ('1' if tag[i] == '0' else '0') + tag[i + 1:]
+        st['fatal'] = 'wrong shard_state tag'
+    elif rk < 0.08:
+        sid = rng.choice(['01', '10', '11'])
+        st['fatal'] = 'wrong ShardIdent tag'
+    bits = (tag + G.rand_bits(rng, 32) + sid + ubits(rng.randrange(61), 6) + G.rand_bits(rng, 32 + 64 + 32 + 32 + 32 + 64 + 32) + rng.choice('01') + cbit)
+    root = db.add(G.ORD, bits, refs)
+    tpath = set(path[target]) | {acell, root}
+    for n_, why in list(st['bad'].items()):
+        if n_ in tpath:
+            st['fatal'] = why + ' (on the path)'
+    st.update(root=root, key=target, acc=accs[target], path=tpath, nacc=nacc, grp=gk, custom=ck)
+    return st
+
+
+def walk_stream(ctx, rng):
+    """every branch of `ShardStateUnsplit.deserialize(...).accounts[0][addr].cell[0]`: label forms, extras with (malformed) extra-currency
+    dictionaries, leaves with short values / without account reference, account cells none / spec-encoded / junk / empty / exotic, the `^[…]`
+    group plain / libraries / master_ref / malformed, custom absent / spec McStateExtra / junk / exotic / missing, wrong tags; each defect once
+    PRUNED AWAY (the honest-proof reading: must be accepted) and once left in the proof (must be rejected)."""
+    pools = {'Account': spec_pool(ctx, rng, 'Account', ctx.n(10, 40)), 'McStateExtra': spec_pool(ctx, rng, 'McStateExtra', ctx.n(5, 20))}
+    ctx.count(f"spec-pool:Account:{min(len(pools['Account']), 10)}+")
+    for t in range(ctx.n(90, 700)):
+        # every 6th state has exactly one of the defects that no pruning can hide (the others: at random)
+        st = gen_walk_state(rng, pools, force=['tag', 'shardident', 'noref', 'nobit'][t // 6 % 4] if t % 6 == 5 else None)
+        db, sroot = st['db'], st['root']
+        if not db.ok(sroot):
+            ctx.corr_broken(f'harness: generated walk state not spec-valid ({db.infos[sroot].why if db.infos[sroot] else "child"})')
+            continue
+        nodes, infos = db.nodes[:sroot + 1], db.infos[:sroot + 1]
+        sinfo = infos[sroot]
+        hdb = G.DagBuilder()
+        hroot, _, _ = gen_header(rng, hdb, sinfo)
+        if not hdb.ok(hroot) or hdb.infos[hroot].mask != 0:
+            continue
+        blk_hash = hdb.infos[hroot].H[0]
+        ctx.count(f"walk:grp:{st['grp']}")
+        ctx.count(f"walk:custom:{st['custom']}")
+        ctx.count('walk:fatal:' + st['fatal'].split(' (')[0].replace(' ', '-') if st['fatal'] else 'walk:sound-state')
+        parents = {}
+        for i, (_, _, r) in enumerate(nodes):
+            for c in r:
+                parents.setdefault(c, set()).add(i)
+
+        def ancestors(n):
+            out, todo = set(), [n]
+            while todo:
+                x = todo.pop()
+                for p_ in parents.get(x, ()):
+                    if p_ not in out:
+                        out.add(p_)
+                        todo.append(p_)
+            return out
+
+        reach, todo = {sroot}, [sroot]
+        while todo:
+            for c in nodes[todo.pop()][2]:
+                if c not in reach:
+                    reach.add(c)
+                    todo.append(c)
+        st['bad'] = {b: w for b, w in st['bad'].items() if b in reach}      # e.g. the account cell of a leaf written without its reference
+        st['gray'] = {g for g in st['gray'] if g in reach}
+        free = [i for i in range(sroot) if i not in st['path']]
+        p0 = {i for i in free if rng.random() < 0.4}
+        suspicious = set(st['bad']) | st['gray']
+        variants = [('clean', (p0 | suspicious) - st['path'])]
+        offbad = [b for b in st['bad'] if b not in st['path']]
+        if offbad:
+            b = rng.choice(offbad)
+            variants.append(('bad:' + st['bad'][b].split(' (')[0], ((p0 | suspicious) - {b} - ancestors(b)) - st['path']))
+        if st['gray']:
+            g = rng.choice(sorted(st['gray']))
+            variants.append(('gray', ((p0 | set(st['bad'])) - {g} - ancestors(g)) - st['path']))
+        kb = st['key'].to_bytes(32, 'big')
+        for name, pset in variants:
+            sp, sr = prune_exact(nodes, infos, sroot, pset)
+            if not sp.ok(sr):
+                continue
+            dag = []
+            o = append_dag(dag, hdb.nodes[:hroot + 1])
+            dag.append((G.MPROOF, G.mproof_bits(hdb.infos[hroot]), (o + hroot,)))
+            r0 = len(dag) - 1
+            o = append_dag(dag, sp.nodes[:sr + 1])
+            dag.append((G.MPROOF, G.mproof_bits(sp.infos[sr]), (o + sr,)))
+            r1 = len(dag) - 1
+            sidx_state = o + sr
+            o2 = append_dag(dag, nodes[:st['acc'] + 1])
+            acc_idx = o2 + st['acc']
+            if st['fatal']:
+                expect, fkey, what = 'rej', 'walk:fatal', f"state that cannot be parsed ({st['fatal']}) accepted"
+            elif name == 'clean':
+                expect, fkey, what = 'acc', 'complete:walk', 'honest account proof (every malformed / unparsed part pruned away) rejected'
+            elif name.startswith('bad:'):
+                expect, fkey, what = 'rej', 'walk:' + name.replace(' ', '-'), f'state proof with an unpruned part the parser must refuse ({name[4:]}) accepted'
+            else:
+                expect, fkey, what = None, 'gray:walk-opaque', ''
+            ctx.count(f'walk:{name.split(":")[0]}')
+            run_account_case(ctx, dag, [r0, r1], blk_hash, st['key'], acc_idx, expect, fkey, what,
+                             check_descr=infos[st['acc']].H[0] if expect == 'acc' else None)
+            run_walk_case(ctx, dag, sidx_state, kb, fkey)
+        # an address that is not in the dictionary
+        if not st['fatal'] and t % 3 == 0:
+            absent = st['key'] ^ (1 << rng.randrange(256))
+            if absent not in {k for k in [st['key']]} and True:
+                sp, sr = prune_exact(nodes, infos, sroot, (p0 | suspicious) - st['path'])
+                if sp.ok(sr):
+                    dag = list(sp.nodes[:sr + 1])
+                    run_walk_case(ctx, dag, sr, absent.to_bytes(32, 'big'), 'walk:absent')
+
+
+def run_walk_case(ctx, dag, idx, kb, fkey):
+    """the walk alone on one state cell: library = model `locateAccount`; whatever the library returns must be the dictionary entry of the
+    address (independent lookup-only transcription of hashmap.tlb, and the Lean spec function `lookupShardAccount`)."""
+    libs = G.lib_build(dag)
+    if libs[idx] is None:
+        return
+    got = lib_walk(libs[idx], kb)
+    key = ''.join(ubits(b, 8) for b in kb)
+    ent = py_lookup(libs[idx], key)
+    ent = ent.hash.hex() if ent is not None else 'x'
+    ctx.case(('walk', tuple(dag), idx, kb), sample={'op': 'locate', 'cells': len(dag), 'key': fkey, 'verdict': 'x' if got == 'x' else 'cell'})
+    ctx.count('locate:' + ('none' if got == 'x' else 'found'))
+    inp = {'op': 'walk', 'dag': jnodes(dag), 'idx': idx, 'addr': kb.hex(), 'key': fkey}
+    if got != 'x' and got != ent:
+        ctx.fail('walk:not-the-dictionary-entry', 'ShardStateUnsplit.deserialize(...).accounts[0][addr].cell[0] is not the account cell that the '
+                 'ShardAccounts dictionary holds under the address', inp, got, ent)
+    bad_acc, bad_mc = opaque_verdicts(libs, dag)
+    ctx.expect_model(f'locacct {dag_str(dag)} {idx} {kb.hex()} {bad_acc} {bad_mc}', f'{got} {ent}', fkey + ' locate')
 
 
 # ----------------------------------------------------------------------------- run / replay
@@ -847,9 +1429,9 @@ def run(ctx):
     rng = ctx.rng
     if ctx.search and src_search(ctx):
         return
-    streams = [generic_streams, account_stream, extra_stream]
+    streams = [generic_streams, account_stream, extra_stream, walk_stream]
     if ctx.search and getattr(ctx, 'src_account_first', False):
-        streams = [account_stream, generic_streams, extra_stream]     # a test of check_account_proof differs: look there first
+        streams = [account_stream, walk_stream, generic_streams, extra_stream]     # a test of check_account_proof differs: look there first
     for stream in streams:
         stream(ctx, rng)
         if ctx.search and ctx.failures:
@@ -871,6 +1453,8 @@ def replay(ctx, payload):
         if inp.get('expect') is not None and goth != inp['expect']:
             ctx.fail(inp.get('key', 'replay'), 'check_block_header_proof verdict differs from the expectation', inp, goth, inp['expect'])
         ctx.expect_model(f'chkhdr {dag_str(nodes)} {inp["idx"]} {hx(h)}', goth, 'replay')
+    elif inp.get('op') == 'walk':
+        run_walk_case(ctx, unj(inp['dag']), inp['idx'], bytes.fromhex(inp['addr']), inp.get('key', 'replay'))
     elif inp.get('op') == 'acct':
         run_account_case(ctx, unj(inp['dag']), inp['roots'], bytes.fromhex(inp['blk_hash']), int(inp['addr'], 16), inp['state_idx'],
                          inp.get('expect'), inp.get('key', 'replay'), inp.get('what', 'replay'))
